@@ -46,7 +46,7 @@ def margins():
 
 # ----------------------------------------------------------------------------------------------- generators
 def random_process_dicts(rng, L, m=None, *, kinds=("1", "1", "adj", "adjp", "lr"), zero_p=0.1, dup_p=0.1,
-                         gmin=0.02, gmax=1.0):
+                         gmin=0.02, gmax=1.0, twin_p=0.12):
     """random user-style process list: whole noise library, random order, unequal strengths, random site orientation"""
     if m is None:
         m = rng.choice([1, 2, 2, 3, 3, 4, 5, 6])
@@ -73,6 +73,17 @@ def random_process_dicts(rng, L, m=None, *, kinds=("1", "1", "adj", "adjp", "lr"
             a = rng.randrange(L - 2)
             b = rng.randrange(a + 2, L)
             out.append({"name": rng.choice(PAULI2), "sites": rng.choice([[a, b], [b, a]]), "strength": g})
+    if rng.random() < twin_p:
+        # two processes that share their label AND their strength but carry different explicit matrices (anything keyed by
+        # (name, strength) instead of by the operator itself confuses them); non-Pauli, so the dissipator is not a scalar
+        g = rng.uniform(max(gmin, 0.05), gmax)
+        low = np.array([[0, 1], [0, 0]], dtype=complex)
+        had = np.array([[1, 1], [1, -1]], dtype=complex) / np.sqrt(2)
+        mats = [low, low.T.copy(), had @ low @ had, np.array([[1, 0], [0, 0]], dtype=complex)]
+        a, b = rng.sample(range(len(mats)), 2)
+        sa, sb = (rng.sample(range(L), 2) if L >= 2 else (0, 0))
+        out.append({"name": "jump", "sites": [sa], "strength": g, "matrix": mats[a]})
+        out.append({"name": "jump", "sites": [sb], "strength": g, "matrix": mats[b]})
     rng.shuffle(out)
     return out
 
